@@ -31,7 +31,7 @@ class MovingLoopGroundFEMSurvey(FEMSurvey, MovingLoopGroundEMSurvey):
     @property
     def default_input_types(self) -> list[str]:
         """Choice of survey creation types."""
-        return self.__INPUT_TYPE
+        return super().default_input_types
 
     @property
     def default_metadata(self) -> dict:
